@@ -32,6 +32,7 @@ def check(c: Check):
     clause_c(c)
     clause_d(c)
     clause_e(c)
+    clause_f(c)
     from .common import sweep_records
     sweep_records(c, 'C14-rec', ['exactly_lib.type_val_prims.string_source', 'exactly_lib.impls.types.string_source'], floor=2)
 
@@ -382,3 +383,63 @@ def clause_e(c: Check):
                      'is not a position in the file on disk - non-ASCII text is corrupted when the buffer is moved to a '
                      'file)' % (recv, unparse(src)), '%s:%d' % (m.relpath, node.lineno))
     c.floor('C14-e', 'seek calls on texts', n, 2)
+
+
+# ---------------------------------------------------------------- f
+def clause_f(c: Check):
+    """a text has no empty line *element*: iteration over a text file never gives '' (the empty text has no lines, a
+    line holds at least its new-line), so the in-memory splitter - which every literal and every cached / frozen text
+    uses - must not either, or the same text has one line more when it is held in memory (`num-lines`, `every line`,
+    `is-empty` look at the elements). EVAL of `split_lines__keep_ends` on a symbolic text (any string): on every
+    returning path every element of the result has a non-empty constant part or was tested to be non-empty."""
+    from ..absint import Interp, Hooks, State, K, Sym, ListVal, StrCat
+    ix, fo = c.ix, c.fo
+    f = ix.func('exactly_lib.util.str_.read_lines:split_lines__keep_ends')
+
+    class H(Hooks):
+        loop_bound = 2
+        symbolic_strings = True
+
+    def surely_nonempty(v) -> bool:
+        if isinstance(v, K):
+            return isinstance(v.v, str) and v.v != ''
+        if isinstance(v, StrCat):
+            return v.certainly_nonempty()
+        if isinstance(v, Sym):
+            return v.truth is True
+        return False
+
+    it = Interp(ix, fo, H())
+    text = StrCat([Sym('text')])
+    n = 0
+    for p in it.run_function(f, {f.positional_params()[0].arg: text}):
+        if p.kind != 'return':
+            continue
+        n += 1
+        c.count()
+        elems = []
+        v = p.val
+        if isinstance(v, ListVal):
+            elems += [('element %d of the result' % i, x) for i, x in enumerate(v.items)]
+        elif isinstance(v, Sym) and v.origin and v.origin[0] == 'comp':
+            elems.append(('an element of the comprehension', v.origin[2]))
+        else:
+            c.require(isinstance(v, Sym), 'C14-f: result of the splitter not understood (%s)' % util.describe(v))
+        for e in p.calls():
+            if isinstance(e.node.func, ast.Attribute) and e.node.func.attr in ('append', 'insert', 'extend'):
+                cv = e.data.get('callee_val')
+                recv = e.data.get('recv')
+                if recv is None and isinstance(cv, Sym) and cv.origin and cv.origin[0] == 'attr':
+                    recv = cv.origin[1]
+                if recv is v or isinstance(recv, ListVal):
+                    for a in e.data['args'][-1:]:
+                        elems.append(('the value given to %s' % e.node.func.attr, a))
+        facts = {id(x): True for e in p.trace if e.kind == 'str-nonempty' for x in e.data}
+        for what, x in elems:
+            ok = surely_nonempty(x) or (isinstance(x, StrCat) and any(facts.get(id(q)) for q in x.parts))
+            guards = [('' if t else 'not ') + unparse(g) for g, t in p.guards]
+            c.expect(ok, 'C14-f', 'split_lines__keep_ends/no-empty-line/%s' % ('+'.join(guards) or 'unconditional'),
+                     'on the path [%s] %s of the in-memory line splitter may be the empty string: a text held in memory '
+                     'gets an empty line that the same text read from a file does not have' % (', '.join(guards), what),
+                     f.loc())
+    c.floor('C14-f', 'returning paths of the in-memory line splitter', n, 2)
